@@ -154,7 +154,7 @@ func driveSchnorr(c *ctx) {
 			b1, sb1, p1 := hx(pk.Bytes()), hx(sk.Bytes()), hx(pk.Point().UncompressedBytes())
 			for _, sl := range [][]byte{pk.Bytes(), sk.Bytes(), sk.PublicKey().Bytes()} {
 				for i := range sl {
-					sl[i] ^= 0xa5
+					sl[i] = byte(0x42 + i)
 				}
 			}
 			sc := sk.Scalar()
@@ -180,7 +180,14 @@ func driveSchnorr(c *ctx) {
 		spk := bitcoin.NewSchnorrPublicKeyFromECDSA(ek.PublicKey())
 		ssk := bitcoin.NewSchnorrPrivateKeyFromECDSA(ek)
 		c.E("schnorr.FromECDSA", "d", h32(d), "bytes", hx(ssk.PublicKey().Bytes()), "point", hx(ssk.PublicKey().Point().UncompressedBytes()),
-			"pubfromecdsa", hx(spk.Bytes()), "skbytes", hx(ssk.Bytes()), "dneg", hx(bitcoin.VerifSchnorrD(ssk)))
+			"pubfromecdsa", hx(spk.Bytes()), "pubfromecdsa_point", hx(spk.Point().UncompressedBytes()), "skbytes", hx(ssk.Bytes()), "dneg", hx(bitcoin.VerifSchnorrD(ssk)))
+		{ // the key derived from the ECDSA PUBLIC key must verify what the key derived from the ECDSA PRIVATE key signs
+			var a32 [32]byte
+			m := []byte("from-ecdsa")
+			if sg, err := bitcoin.VerifSignSchnorr(&a32, ssk, m); err == nil {
+				verify(spk, m, sg, false)
+			}
+		}
 		for _, p := range []*secp256k1.Point{ek.PublicKey().Point(), rep(ek.PublicKey().Point(), add(randBig(rng, add(bigP, -1)), 1)),
 			secp256k1.NewIdentityPoint().Negate(ek.PublicKey().Point())} {
 			k, err := bitcoin.NewSchnorrPublicKeyFromPoint(p)
